@@ -234,7 +234,9 @@ func Harness_C04_step() {
 	ob := vNewObserver()
 	w := pkggossip.VerifViewOf("w", ob.gs, o, oc, K)
 	vAssumeAddrsImmutable(w, addrP, addrA)
-	if !w.Left && v.Choose("w.unreachable", 2) == 1 {
+	// (a node can be both: marked unreachable first, its left marker learned
+	// through a relay afterwards)
+	if v.Choose("w.unreachable", 2) == 1 {
 		w.Unreachable = true
 		w.Expiry = v.Time("w.expiry")
 	}
